@@ -377,6 +377,21 @@ func c46Check(w *vx.W, tmp string, x c46Case) {
 	w.Outcome("rel:" + rel)
 }
 
+// c46QuickDir selects the part of the product that the quick tier also runs
+// on Dir (the thorough tier runs all of it on both file systems): the cases on
+// a real directory cost a few hundred system calls each, and an infinite-depth
+// COPY of a collection into one of its own members nests 1000 directories
+// there before copyFiles gives up.
+func c46QuickDir(x c46Case) bool {
+	if x.Prefix != "" || x.Depth != "" || x.Lock == "root+token" || x.Lock == "dst-locked" {
+		return false
+	}
+	if x.Method == "COPY" && x.Tree != "file" && (x.Dest == "/a/b" || x.Dest == "/a/f") {
+		return x.Src == "/a" && x.Lock == "none" && x.Overwrite == ""
+	}
+	return true
+}
+
 func TestVerif_C46(t *testing.T) {
 	vx.Run(t, "C46", func(c *vx.Ctx) {
 		dests := append([]string{}, c46DestsQ...)
@@ -385,7 +400,7 @@ func TestVerif_C46(t *testing.T) {
 			dests = append(dests, c46DestsT...)
 			depths = c46Depths
 		}
-		c.Rule(fmt.Sprintf("one COPY or MOVE request through Handler.ServeHTTP on a fresh tree: fs {NewMemFS, Dir(fresh dir)} x method x /a in %q x request target %q x Destination in %q (rel: = relative reference, HOST = the request host, - = no header; /b and /b/ additionally with /b absent|file|dir holding a file) x Overwrite %q x Depth %q x lock state %q (infinite-depth locks made directly on the LockSystem; tokens presented in an untagged If list; dst-locked = a foreign lock on the destination location) x Prefix %q. Oracle on the tree read back through the FileSystem interface before/after: COPY — every path at or under /a keeps its kind and content (paths at or under a destination strictly inside the source are exempt); MOVE — /a and everything under it is unchanged, or /a is gone and the destination subtree equals the old source subtree. non-trivial = request answered 201/204 or changed the tree", c46Trees, c46Srcs, dests, c46Overs, depths, c46Locks, c46Prefixes))
+		c.Rule(fmt.Sprintf("one COPY or MOVE request through Handler.ServeHTTP on a fresh tree: fs {NewMemFS, Dir(fresh dir)%s} x method x /a in %q x request target %q x Destination in %q (rel: = relative reference, HOST = the request host, - = no header; /b and /b/ additionally with /b absent|file|dir holding a file) x Overwrite %q x Depth %q x lock state %q (infinite-depth locks made directly on the LockSystem; tokens presented in an untagged If list; dst-locked = a foreign lock on the destination location) x Prefix %q. Oracle on the tree read back through the FileSystem interface before/after: COPY — every path at or under /a keeps its kind and content (paths at or under a destination strictly inside the source are exempt); MOVE — /a and everything under it is unchanged, or /a is gone and the destination subtree equals the old source subtree. non-trivial = request answered 201/204 or changed the tree", vx.Pick(c, " — quick tier: on Dir only without Prefix and Depth header, lock states none and src+token, and the 1000-directory self-copy cases only for the plain request", ""), c46Trees, c46Srcs, dests, c46Overs, depths, c46Locks, c46Prefixes))
 		c.Assume("status codes, dead properties, lock bookkeeping and the fate of resources outside the source are not part of the oracle")
 		c.Assume("single requests on a quiescent server; no concurrent requests")
 		tmp := c45TempRoot(c.T)
@@ -408,7 +423,11 @@ func TestVerif_C46(t *testing.T) {
 										for _, st := range states {
 											for _, method := range []string{"COPY", "MOVE"} {
 												for _, fs := range []string{"mem", "dir"} {
-													if !yield(c46Case{fs, method, tree, src, dest, st, ow, depth, lock, prefix}) {
+													x := c46Case{fs, method, tree, src, dest, st, ow, depth, lock, prefix}
+													if fs == "dir" && c.Quick() && !c46QuickDir(x) {
+														continue
+													}
+													if !yield(x) {
 														return
 													}
 												}
